@@ -651,6 +651,12 @@ def dc_near(spec) -> t.List[t.Any]:
             d2 = {firm[0]: [[['bad']]], firm[1]: good, **{k: x for k, x in full.items() if k not in firm}}
             out.append(d2)                          # first occurrence does not even convert
             out.append({firm[1]: good, firm[0]: {'bad': None}, **{k: x for k, x in full.items() if k not in firm}})
+    for f in fields:
+        # the OUTPUT name of a field is not one of its input names unless it is also listed as such
+        firm, soft = classes_gen.input_names(f, opts)
+        on = classes_gen.out_name(f, opts)
+        if on not in firm and on not in soft:
+            out.append({**{k: x for k, x in full.items() if k not in firm}, on: members(f['type'])[0]})
     req = [f for f in fields if not classes_gen.has_default(f)]
     if req:
         d = {k: x for k, x in full.items() if k not in classes_gen.input_names(req[0], opts)[0]}
